@@ -230,3 +230,158 @@ def describe_case(m, sc):
         return dict(scenario=sc, cell=m['cell'].tolist(), atoms=len(m['spec']['el']), pattern_elements=m['spec']['pel'], planted=m['spec']['planted'])
     return dict(scenario=sc, cell=m['cell'].tolist(), structure_elements=m['spec']['el'], structure_positions=np.round(m['spec']['pos'], 6).tolist(),
                 pattern_elements=m['spec']['pel'], pattern_positions=(m['spec']['pp'] + np.array([3.3, -1.2, 0.7])).tolist(), planted=m['spec']['planted'], hints=m['kw'])
+
+
+# ---------------------------------------------------------------------------------------------------------------------
+# histories (mc/checks/histories.py): the search on an object with a past must equal the search on a fresh equal object
+from mc.checks import histories as H
+
+HIST_BASES = [dict(cell=ci, pat=pn, subpose=4, place=P(0.97, 0.03, 0.97), decoy=d, atol=0.05, noise=0) for ci in (0, 2) for pn, d in (('CHFClBr', 'mirror'), ('CNO', 'second'), ('CHHB', 'mirror'))]
+
+
+def _find(ctx, S, Pt, atol, **kw):
+    (res, err), _ = explorer(ctx).run(lambda: call(find_pattern_in_structure, S, Pt, atol=atol, return_positions_and_quats=True, **kw), ())
+    return res, err
+
+
+def _h_translate_wrap(ctx, e):
+    _find(ctx, e['S'], e['P'], e['atol']); H.wrap_in_place(e['S'], np.array([0.41, -0.33, 0.27]))
+
+
+def _h_translate_lattice(ctx, e):
+    _find(ctx, e['S'], e['P'], e['atol']); call(e['S'].translate, np.array([0.004, 0.003, 0.002]))
+
+
+def _h_move_atom(ctx, e):
+    _find(ctx, e['S'], e['P'], e['atol']); e['S'].positions[e['planted'][0][-1]] += np.array([0.4, 0.3, 0.2]) * np.sign(0.5 * np.asarray(e['S'].cell, float).sum(axis=0) - e['S'].positions[e['planted'][0][-1]])
+
+
+def _h_retype_atom(ctx, e):
+    _find(ctx, e['S'], e['P'], e['atol'])
+    k = e['planted'][0][0]; t = int(e['S'].atom_types[k]); others = [x for x in range(len(e['S'].atom_type_elements)) if x != t]
+    e['S'].atom_types[k] = others[0]
+
+
+def _h_cell_assign(ctx, e):
+    _find(ctx, e['S'], e['P'], e['atol']); e['S'].cell = np.asarray(e['S'].cell, float) * np.array([[2.0], [1.0], [1.0]])
+
+
+def _h_replicate(ctx, e):
+    _find(ctx, e['S'], e['P'], e['atol']); e['S'] = e['S'].replicate((2, 1, 1))
+
+
+def _h_copy_then_edit(ctx, e):
+    _find(ctx, e['S'], e['P'], e['atol']); e['S'] = e['S'].copy(); H.wrap_in_place(e['S'], np.array([-0.5, 0.2, 0.6]))
+
+
+def _h_short_pattern_first(ctx, e):
+    Ps = Atoms(elements=list(e['P'].elements)[:2], positions=np.asarray(e['P'].positions)[:2])
+    _find(ctx, e['S'], Ps, e['atol'])
+
+
+def _h_other_atol_first(ctx, e):
+    _find(ctx, e['S'], e['P'], 0.01); _find(ctx, e['S'], e['P'], 0.3)
+
+
+def _h_mirror_pattern(ctx, e):
+    _find(ctx, e['S'], e['P'], e['atol']); e['P'].positions[:, 2] *= -1
+
+
+def _h_copy_mirror_pattern(ctx, e):
+    _find(ctx, e['S'], e['P'], e['atol']); e['P'] = e['P'].copy(); e['P'].positions[:, 2] *= -1
+
+
+def _h_flip_pattern(ctx, e):
+    _find(ctx, e['S'], e['P'], e['atol']); e['P'].positions[:, :2] *= -1
+
+
+def _h_translate_pattern(ctx, e):
+    _find(ctx, e['S'], e['P'], e['atol']); call(e['P'].translate, np.array([5.0, -7.5, 2.25]))
+
+
+def _h_default_then_hints(ctx, e):
+    _find(ctx, e['S'], e['P'], e['atol']); e['kw'] = e['hint_forms'][e['hi'] % len(e['hint_forms'])]
+
+
+def _h_hints_then_default(ctx, e):
+    _find(ctx, e['S'], e['P'], e['atol'], **e['hint_forms'][e['hi'] % len(e['hint_forms'])])
+
+
+def _h_hints_then_other_hints(ctx, e):
+    _find(ctx, e['S'], e['P'], e['atol'], **e['hint_forms'][e['hi'] % len(e['hint_forms'])]); e['kw'] = e['hint_forms'][(e['hi'] + 1) % len(e['hint_forms'])]
+
+
+def _h_other_structure_first(ctx, e):
+    S2 = H.fresh(e['S']); H.wrap_in_place(S2, np.array([1.3, 0.9, -2.2])); S2.cell = np.asarray(S2.cell, float) * 1.0
+    _find(ctx, S2, e['P'], e['atol'])
+
+
+def _h_replace_first(ctx, e):
+    R2 = Atoms(elements=list(e['P'].elements)[:-1] + ['Xe'], positions=np.asarray(e['P'].positions).copy())
+    explorer(ctx).run(lambda: call(MM_replace, e['S'], e['P'], R2, atol=e['atol']), ())
+
+
+def _h_same_call_twice(ctx, e):
+    _find(ctx, e['S'], e['P'], e['atol'], **e['kw']); _find(ctx, e['S'], e['P'], e['atol'], **e['kw'])
+
+
+def _h_elements_and_save_first(ctx, e):
+    list(e['S'].elements); list(e['P'].elements); s = io.StringIO(); call(e['S'].save_lmpdat, s); call(e['S'].cell_abc_alpha_beta_gamma)
+
+
+def _h_shared_array(ctx, e):
+    # structure and pattern built from views of one array (the pattern is cut out of the crystal): later operations on one must not move the other
+    allpos = np.array(np.asarray(e['S'].positions, float), copy=True); k = len(e['P'].atom_types); idx = list(e['planted'][0])
+    order = idx + [i for i in range(len(allpos)) if i not in idx]
+    allpos = allpos[order]; els = [list(e['S'].elements)[i] for i in order]
+    e['S'] = Atoms(elements=els, positions=allpos, cell=np.array(e['S'].cell)); e['P'] = Atoms(elements=els[:k], positions=allpos[:k])
+    e['planted'] = [tuple(range(k))]
+    _find(ctx, e['S'], e['P'], e['atol'])
+    before = raw_state(e['S'])
+    call(e['P'].translate, np.array([0.09, 0.08, -0.07]))
+    if raw_state(e['S']) != before:
+        e['alias'] = 'translating the pattern (built from a slice of the same coordinate array) moved atoms of the structure'
+
+
+import io
+from mofun import replace_pattern_in_structure as MM_replace
+FIND_HISTORIES = [('search, shift-and-wrap the structure in place, search', _h_translate_wrap), ('search, translate() the structure slightly, search', _h_translate_lattice),
+                  ('search, move one matched atom in place, search', _h_move_atom), ('search, retype one matched atom in place, search', _h_retype_atom),
+                  ('search, double the cell along a, search', _h_cell_assign), ('search, replicate 2x1x1, search the replica', _h_replicate),
+                  ('search, copy(), edit the copy in place, search the copy', _h_copy_then_edit), ('search with the first two pattern atoms, then with the pattern', _h_short_pattern_first),
+                  ('search with atol 0.01 and 0.3, then with atol', _h_other_atol_first), ('search, mirror the pattern in place, search', _h_mirror_pattern),
+                  ('search, copy() the pattern and mirror the copy, search', _h_copy_mirror_pattern), ('search, turn the pattern by 180 degrees about z in place, search', _h_flip_pattern),
+                  ('search, translate() the pattern, search', _h_translate_pattern), ('search with default axis, then with hints', _h_default_then_hints),
+                  ('search with hints, then with default axis', _h_hints_then_default), ('search with hints, then with other hints', _h_hints_then_other_hints),
+                  ('search another structure with the same pattern object first', _h_other_structure_first), ('replace on the same objects first', _h_replace_first),
+                  ('the same search twice before', _h_same_call_twice), ('read elements / save / cell parameters first', _h_elements_and_save_first),
+                  ('structure and pattern built from one coordinate array', _h_shared_array)]
+
+
+def history_scenarios(tier):
+    out = []
+    for bi in range(len(HIST_BASES)):
+        for hi, (name, fn) in enumerate(FIND_HISTORIES):
+            for v in ((0, 1, 2) if 'hints' in name else (0,)):
+                out.append(dict(history=hi, base=bi, hi=v, atol=HIST_BASES[bi]['atol'], decoy=HIST_BASES[bi]['decoy'], place=HIST_BASES[bi]['place'], noise=0))
+    return out
+
+
+def run_history(sc, ctx):
+    """-> env after the history: S, P, kw, atol, final result (res, err) on the objects with the history, and the same call on fresh objects"""
+    base = HIST_BASES[sc['base']]
+    m = materialise(base, ctx)
+    pp = m['spec']['pp']
+    forms = [dict(zip(('axisp1_idx', 'axisp2_idx', 'opoint_idx'), f)) for f in hint_forms(pp)] if len(pp) > 2 else [{}]
+    forms = [{k: v for k, v in f.items() if v is not None} for f in forms]; forms = [f for f in forms if f] or [{}]
+    e = dict(S=m['s'], P=m['p'], kw={}, atol=base['atol'], planted=[tuple(t) for t in m['spec']['planted']], hint_forms=forms, hi=sc['hi'])
+    name, fn = FIND_HISTORIES[sc['history']]
+    fn(ctx, e)
+    fr = np.asarray(e['S'].positions, float) @ np.linalg.inv(np.asarray(e['S'].cell, float))
+    if fr.min() < 0 or fr.max() >= 1:
+        return dict(e, skip='the history moved an atom out of the cell (outside the domain of the search)', name=name)
+    res, err = _find(ctx, e['S'], e['P'], e['atol'], **e['kw'])
+    fS, fP = H.fresh(e['S']), H.fresh(e['P'])
+    fres, ferr = _find(ctx, fS, fP, e['atol'], **e['kw']) if fS is not None and fP is not None else (None, None)
+    e.update(res=res, err=err, fres=fres, ferr=ferr, name=name, fresh_ok=fS is not None and fP is not None)
+    return e
